@@ -30,6 +30,26 @@ CLAIMED = {
         "technique": "Coq-verified table validator + N(T) soundness theorem + LR driver simulation proof; differential correspondence",
         "design": "DESIGN.md section 7, C04",
     },
+    "C06": {
+        "text": "Unbounded Coq theorems: for every operator table and token sequence the shift-reduce machine whose only "
+                "decision is dec_of (priority comparison, then associativity of the stacked operator) returns the tree of the "
+                "precedence-climbing parser (C06_opm_climb, no bound on operators, levels or expression size); the Gallina "
+                "model of parglare's shift/reduce resolution produces exactly that decision in every state "
+                "(C06_resolve_decides) and _max_prior_per_symbol of an operator is its production's priority for every item "
+                "order; the reduce phase is the identity on states whose unresolved cells are conflict-free "
+                "(C06_noop_on_conflict_free). Tie to /repo: the reduce-phase model is re-run on the impl's own item and "
+                "lookahead sets of every state (LALR and SLR) and compared cell by cell; every operator-vs-operator cell of "
+                "the impl table is compared with dec_of; Parser (tree and default actions) and GLRParser (len, ambiguities, "
+                "tree, call_actions) are compared with the extracted climb on generated operator tables and expressions; "
+                "decorated vs undecorated conflict-free grammars are compared as whole tables and results.",
+        "note": "Partial: the link 'LR/GLR driver on the operator grammar's automaton = OPM' (planned C06_table_opm, "
+                "C06_builder_opm) is not proved; it is covered differentially. Automaton construction before the reduce phase "
+                "is not modelled (C05). Trusted: Coq kernel, extraction, OCaml driver, state dump (shift targets are "
+                "reconstructed by kernel lookup), generators.",
+        "technique": "Coq proofs over a Gallina model of the conflict-resolution code and an operator-precedence machine + "
+                     "differential correspondence on impl tables and parse results",
+        "design": "DESIGN.md section 7, C06",
+    },
 }
 
 NOT_YET = "machinery for this property is not built yet in this commit (planned, see DESIGN.md section 12)"
